@@ -824,17 +824,43 @@ fn authdata(flavour: &str, rp: &[u8], flags: u8, count: u32, acd: &str, ext: &st
     }
 }
 
+fn show_ctap1(r: Result<ctap1::Request, ctap1::Error>) -> String {
+    match r {
+        Ok(ctap1::Request::Register(r)) => format!("ok register {} {}", hex(r.challenge), hex(r.app_id)),
+        Ok(ctap1::Request::Authenticate(a)) => {
+            format!("ok authenticate {:?} {} {} {}", a.control_byte, hex(a.challenge), hex(a.app_id), hex(a.key_handle))
+        }
+        Ok(ctap1::Request::Version) => "ok version".into(),
+        Err(e) => format!("err {:?}", e),
+    }
+}
+
+/// the owned-command entry point (TryFrom<&iso7816::Command<S>>) for one buffer capacity; None when the APDU does not fit the buffer
+fn apdu_owned<const S: usize>(raw: &[u8]) -> Option<String> {
+    let cmd = iso7816::Command::<S>::try_from(raw).ok()?;
+    Some(show_ctap1(ctap1::Request::try_from(&cmd)))
+}
+
 fn apdu(raw: &[u8]) -> String {
     match iso7816::command::CommandView::try_from(raw) {
         Err(e) => format!("apduerr {:?}", e),
-        Ok(view) => match ctap1::Request::try_from(view) {
-            Ok(ctap1::Request::Register(r)) => format!("ok register {} {}", hex(r.challenge), hex(r.app_id)),
-            Ok(ctap1::Request::Authenticate(a)) => {
-                format!("ok authenticate {:?} {} {} {}", a.control_byte, hex(a.challenge), hex(a.app_id), hex(a.key_handle))
+        Ok(view) => {
+            let by_view = show_ctap1(ctap1::Request::try_from(view));
+            // both entry points must agree, whatever the capacity of the owned command's buffer
+            macro_rules! owned {
+                ($($n:literal),*) => {
+                    $(
+                        if let Some(o) = apdu_owned::<$n>(raw) {
+                            if o != by_view {
+                                return format!("owned-command entry point with capacity {} answers {} but the view answers {}", $n, o, by_view);
+                            }
+                        }
+                    )*
+                };
             }
-            Ok(ctap1::Request::Version) => "ok version".into(),
-            Err(e) => format!("err {:?}", e),
-        },
+            owned!(0, 1, 2, 5, 16, 32, 63, 64, 65, 66, 80, 81, 82, 96, 97, 128, 255, 256, 257, 320, 321, 322, 1024, 7609);
+            by_view
+        }
     }
 }
 
